@@ -11,6 +11,8 @@
 (*      px, py = mantissa patterns; mag = magnitude class of the operand   *)
 (*      that anchors the pair; sx, sy = sign bits                          *)
 (*  <<"prod", fmt, magx, magy, px, py, sx, sy>>                            *)
+(*  <<"proddense", fmt, magx, magy>>  many random-mantissa, random-sign     *)
+(*      pairs drawn inside the two magnitude classes                       *)
 (*  <<"split", fmt, mag, px, sx>>   mag may also be "binade": the driver   *)
 (*      places the pattern in EVERY binade of the format (subnormal        *)
 (*      positions included)                                                *)
@@ -24,6 +26,11 @@
 (* significant bits: one more than a half can hold), lowrand = 1, zeros,   *)
 (* then drawn bits in the low p - s positions (just above a power of two). *)
 (* Magnitude classes: sub (a subnormal binade, drawn), minnorm (2^emin),   *)
+(* lownorm (one of the p lowest normal binades above 2^emin, drawn: where  *)
+(* a down-scaled operand or an error term enters the subnormal range),     *)
+(* anybin (any binade of the format, drawn: regions that are no boundary   *)
+(* of the shipped code), clamp (drawn uniformly from the whole clamp region *)
+(* (x_max, largest] of the splitter),                                      *)
 (* one (2^0: the splitter's scaling switch), sqrtmax (exponent around      *)
 (* emax/2: product overflow edge), xmax (the splitter's clamp threshold    *)
 (* x_max: the pattern selects the offset in ulps), largestC (the edge      *)
@@ -41,7 +48,7 @@ S(fmt) == (P(fmt) + 1) \div 2
 
 Pats == {"pow2", "pow2p", "pow2m", "ones", "half", "alt", "rand", "onehalf", "lowrand"}
 FewPats == IF Quick THEN {"pow2", "pow2m", "half", "rand", "onehalf"} ELSE Pats
-Mags == {"sub", "minnorm", "one", "sqrtmax", "xmax", "largestC", "largest"}
+Mags == {"sub", "minnorm", "lownorm", "one", "anybin", "sqrtmax", "xmax", "clamp", "largestC", "largest"}
 Signs == IF Quick THEN {<<0, 0>>, <<0, 1>>} ELSE {<<0, 0>>, <<0, 1>>, <<1, 0>>, <<1, 1>>}
 
 EdgeGaps(fmt) == LET p == P(fmt)
@@ -57,6 +64,9 @@ SumOK(t) == t[3] \in Gaps(t[2])
 Prod == {<<"prod", f, mx, my, px, py, sg[1], sg[2]>> :
            f \in Fmts, mx \in Mags, my \in Mags, px \in Pats, py \in FewPats, sg \in Signs}
 
+\* dense class pairs: the driver draws many random-mantissa pairs per (format, class, class)
+ProdDense == {<<"proddense", f, mx, my>> : f \in Fmts, mx \in Mags, my \in Mags}
+
 Split == {<<"split", f, m, px, sx>> : f \in Fmts, m \in Mags \cup {"binade"}, px \in Pats, sx \in {0, 1}}
 
 Gaps3(fmt) == LET p == P(fmt) IN {0, 1, S(fmt), p - 1, p, p + 1, 2 * p}
@@ -65,7 +75,7 @@ Sum3 == {<<"sum3", f, g1, g2, px, sy, sz>> :
            px \in {"pow2", "ones", "rand"}, sy \in {0, 1}, sz \in {0, 1}}
 Sum3OK(t) == t[3] \in Gaps3(t[2]) /\ t[4] \in Gaps3(t[2])
 
-Cases == {t \in Sum : SumOK(t)} \cup Prod \cup Split \cup {t \in Sum3 : Sum3OK(t)}
+Cases == {t \in Sum : SumOK(t)} \cup Prod \cup ProdDense \cup Split \cup {t \in Sum3 : Sum3OK(t)}
 
 Init == c \in Cases
 Next == UNCHANGED c
